@@ -20,6 +20,7 @@ import (
 	"testing"
 	"time"
 
+	"github.com/WuKongIM/WuKongIM/pkg/quorumlog"
 	"github.com/WuKongIM/WuKongIM/pkg/zzverif/crashfs"
 	"github.com/WuKongIM/WuKongIM/pkg/zzverif/ev"
 	"github.com/cockroachdb/pebble/v2/vfs"
@@ -41,6 +42,7 @@ type vc09Step struct {
 	Par      []*vc09Op // concurrent step: the requests
 	Disabled bool
 	OK       bool
+	Tags     []string // accepted step: the secondary records its pre-state carried (vc09Op.tags)
 }
 
 type vc09Boundary struct {
@@ -60,6 +62,10 @@ type vc09Stats struct {
 	reopened, cleanupAboveLEO                                       int64
 	kindOK                                                           map[string]int64
 	points, steps, boundaries                                        int64
+	// a further real mutation executed on the recovered store of every distinct disk content
+	further int64
+	// images captured strictly inside an accepted step, by the tags of that step
+	tagInflight map[string]int64
 }
 
 type vc09History struct {
@@ -155,6 +161,9 @@ func (x *vc09Exec) runOp(event string, op *vc09Op) bool {
 	x.acked.Add(1)
 	ok := !op.disabled && err == nil
 	step.OK = ok
+	if ok {
+		step.Tags = op.tags
+	}
 	x.steps = append(x.steps, step)
 	if !op.disabled && ok != op.predictOK {
 		x.h.violate("C09:mutation-outcome-differs-from-model:"+op.kind, "step %d %s: real result err=%v, model predicted accepted=%v", len(x.steps), op.name(), err, op.predictOK)
@@ -181,10 +190,41 @@ func (x *vc09Exec) runEvent(event string) bool {
 		return x.runOp(event, m.prepXhw(ci))
 	case "fol":
 		return x.runOp(event, m.prepFol(ci))
+	case "flo":
+		return x.runOp(event, m.prepFolHW(ci, false))
 	case "rep":
 		return x.runOp(event, m.prepRep(ci))
-	case "trn":
-		return x.runOp(event, m.prepTrn(ci))
+	case "trn", "trp":
+		// default target: everything above the committed HW; explicit target: trn:A:<seq>
+		if arg == "" {
+			if kind == "trn" {
+				return x.runOp(event, m.prepTrn(ci))
+			}
+			to := m.Ch[ci].LEO
+			if m.Ch[ci].HW < to {
+				to = m.Ch[ci].HW
+			}
+			return x.runOp(event, m.prepTrnTo(ci, to, false))
+		}
+		var to uint64
+		fmt.Sscan(arg, &to)
+		return x.runOp(event, m.prepTrnTo(ci, to, kind == "trn"))
+	case "trx":
+		// physical trim batches only, through the boundary adopted earlier (no adopt call)
+		through := m.Ch[ci].Local
+		if !m.Ch[ci].HasRet || through == 0 {
+			return x.runOp(event, &vc09Op{kind: "trim", ci: ci, disabled: true})
+		}
+		for i := 0; i < 8; i++ {
+			op := m.prepTrim(ci, through)
+			if !x.runOp(event, op) {
+				return false
+			}
+			if !op.more || !x.steps[len(x.steps)-1].OK {
+				break
+			}
+		}
+		return true
 	case "ckp":
 		return x.runOp(event, m.prepCkp(ci, false))
 	case "ckb":
@@ -197,6 +237,10 @@ func (x *vc09Exec) runEvent(event string) bool {
 		return x.runOp(event, m.prepBulk(ci, n))
 	case "trm":
 		through := vc09TrimThrough(&m.Ch[ci])
+		if arg != "" {
+			// explicit boundary: trm:A:<seq>
+			fmt.Sscan(arg, &through)
+		}
 		if through == 0 {
 			return x.runOp(event, &vc09Op{kind: "adopt", ci: ci, disabled: true})
 		}
@@ -363,6 +407,7 @@ func (x *vc09Exec) finish() {
 // vc09RunHistory runs h completely: execution with capture, then every image.
 func vc09RunHistory(h *vc09History) {
 	h.st.kindOK = map[string]int64{}
+	h.st.tagInflight = map[string]int64{}
 	if h.pair {
 		vc09RunPair(h)
 		return
@@ -372,15 +417,17 @@ func vc09RunHistory(h *vc09History) {
 		return
 	}
 	var obs *vc09Observer
-	if h.par {
-		obs = &vc09Observer{}
-		x.store.eng.ConfigureCommitCoordinator(CommitCoordinatorConfig{FlushWindow: 20 * time.Second, MaxRequests: len(h.events), Observer: obs})
-	}
 	good := true
 	for _, e := range h.prefix {
 		if good = x.runEvent(e); !good {
 			break
 		}
+	}
+	if h.par {
+		// configured AFTER the prefix: a lone prefix request would otherwise sit out the whole
+		// flush window (the window only has to be longer than the concurrent submission takes)
+		obs = &vc09Observer{}
+		x.store.eng.ConfigureCommitCoordinator(CommitCoordinatorConfig{FlushWindow: 20 * time.Second, MaxRequests: len(h.events), Observer: obs})
 	}
 	// steps of the prefix are not crash-tested: restart the step numbering
 	if good {
@@ -388,6 +435,9 @@ func vc09RunHistory(h *vc09History) {
 		x.bounds = nil
 		x.acked.Store(0)
 		x.started.Store(0)
+		if h.name == "prep" {
+			h.st.kindOK = map[string]int64{} // count the captured event only
+		}
 		good = x.boundary()
 	}
 	if good {
@@ -480,6 +530,43 @@ type vc09Reopened struct {
 	raw   vc09Dump
 	lines []string
 	facts [2]vc09Facts
+	st    *vc09Store // still open: the further real mutation has not run yet
+}
+
+func (ro *vc09Reopened) release() {
+	if ro.st != nil {
+		_ = ro.st.close()
+		ro.st = nil
+	}
+}
+
+// vc09Further executes one more REAL mutation per channel (a plain append at the recovered
+// log end) on a recovered store whose content equals the reference model base, and compares
+// everything the store then reports with the model after those appends: a recovered state
+// must not only read back correctly, the store must also keep working from it.
+func vc09Further(st *vc09Store, base *vc09Model, q vc09Queries) string {
+	m := base.clone()
+	m.Q.IDs = append([]uint64(nil), q.IDs...)
+	for i := range q.Cmds {
+		m.Q.Cmds[i] = append([]quorumlog.CommandID(nil), q.Cmds[i]...)
+	}
+	m.Q.MaxSeq = q.MaxSeq
+	for ci := range m.Ch {
+		op := m.prepApp(ci)
+		var err error
+		if perr := ev.Recover(func() { err = op.run(st) }); perr != nil {
+			return fmt.Sprintf("a further append on channel %s panicked: %v", vc09Name[ci], perr)
+		}
+		if err != nil {
+			return fmt.Sprintf("a further append on channel %s (model log end %d) fails: %v", vc09Name[ci], base.Ch[ci].LEO, err)
+		}
+		op.apply(m)
+	}
+	lines, _ := vc09ObserveAll(st, m.Q)
+	if d := vc09FirstDiff(m.expectAll(m.Q), lines); d != "" {
+		return "after a further append on every channel the store differs from the model: " + d
+	}
+	return ""
 }
 
 // reopen mounts a private copy of the image, opens it with the real Open and reads it.
@@ -541,10 +628,13 @@ func (x *vc09Exec) checkImage(k int, fsop, mode string, mem *vfs.MemFS, meta vc0
 	}
 	ro := cache[key]
 	if ro == nil {
-		ro, _ = x.reopen(mem, q, false)
+		var kept *vc09Store
+		ro, kept = x.reopen(mem, q, true)
+		ro.st = kept
 		cache[key] = ro
 		h.st.reopened++
 	}
+	defer ro.release()
 	if ro.err != nil {
 		h.violate("C09:reopen-failed-after-"+mode, "%s: the store does not open: %v", where, ro.err)
 		return ""
@@ -558,10 +648,12 @@ func (x *vc09Exec) checkImage(k int, fsop, mode string, mem *vfs.MemFS, meta vc0
 	// which reference state is it?
 	matched := -1
 	var want []string
+	var wantModel *vc09Model
 	for j := a; j <= s && j < len(x.bounds); j++ {
 		if raw.Hash == x.bounds[j].Raw.Hash {
 			matched = j
 			want = x.bounds[j].Model.expectAll(q)
+			wantModel = x.bounds[j].Model
 			break
 		}
 	}
@@ -575,6 +667,7 @@ func (x *vc09Exec) checkImage(k int, fsop, mode string, mem *vfs.MemFS, meta vc0
 			if mask&meta.ParAcked == meta.ParAcked && raw.Hash == b.Raw.Hash {
 				matched = a
 				want = b.Model.expectAll(q)
+				wantModel = b.Model
 				h.st.parPartial++
 				break
 			}
@@ -620,6 +713,19 @@ func (x *vc09Exec) checkImage(k int, fsop, mode string, mem *vfs.MemFS, meta vc0
 	if !x.invariants(where, mode, facts, cleanup) {
 		return ""
 	}
+	if ro.st != nil && wantModel != nil && cleanup < 0 {
+		// once per distinct disk content: the recovered store must keep working
+		h.st.further++
+		if why := vc09Further(ro.st, wantModel, q); why != "" {
+			kind := "idle"
+			if inflight {
+				kind = step.Kind
+			}
+			h.violate("C09:recovered-store-unusable:"+kind+":"+mode, "%s: the recovered store equals the reference state after %d steps, but %s", where, matched, why)
+			return ""
+		}
+	}
+	ro.release()
 	if cleanup >= 0 {
 		// a restore whose cleanup crashed retries the cleanup: it must converge exactly
 		_, st := x.reopen(mem, q, true)
@@ -649,6 +755,9 @@ func (x *vc09Exec) checkImage(k int, fsop, mode string, mem *vfs.MemFS, meta vc0
 	}
 	if !inflight {
 		return ""
+	}
+	for _, tag := range step.Tags {
+		h.st.tagInflight[tag]++
 	}
 	if step.Kind != "par" && cleanup < 0 && x.bounds[a].Raw.Hash != x.bounds[s].Raw.Hash {
 		if matched == a {
@@ -804,6 +913,8 @@ func TestVerifC09(t *testing.T) {
 		if r.Thorough() {
 			hs = append(hs, &vc09History{name: "paging-then-append", prefix: []string{"bulk:A:600", "bulk:A:500"}, events: []string{"dis:A", "xhw:A"}})
 		}
+		// every mutation from prepared states whose secondary records disagree with its post-state
+		hs = append(hs, vc09PreparedHistories(r.Thorough())...)
 		// op2 issued while op1's commit is parked inside its WAL fsync
 		hs = append(hs, vc09PairHistories(r.Thorough())...)
 	}
@@ -816,11 +927,14 @@ func TestVerifC09(t *testing.T) {
 		}
 		hs = keep
 	}
-	total, totalPairs := 0, 0
+	total, totalPairs, totalPrep := 0, 0, 0
 	for _, h := range hs {
-		if h.pair {
+		switch {
+		case h.pair:
 			totalPairs++
-		} else {
+		case h.name == "prep":
+			totalPrep++
+		default:
 			total++
 		}
 	}
@@ -837,6 +951,8 @@ func TestVerifC09(t *testing.T) {
 			return 30
 		case h.pair:
 			return 6
+		case h.name == "prep":
+			return 4 + len(h.prefix) + 2*len(h.events)
 		}
 		return 1 + 2*len(h.events)
 	}
@@ -906,10 +1022,13 @@ func TestVerifC09(t *testing.T) {
 
 	// ---- merge, deterministically
 	sort.Slice(hs, func(i, j int) bool { return hs[i].label() < hs[j].label() })
-	var tot vc09Stats
+	var tot, prep vc09Stats
 	tot.kindOK = map[string]int64{}
+	prep.kindOK = map[string]int64{}
+	prep.tagInflight = map[string]int64{}
+	prepMine := int64(0)
 	var pt vc09PairStats
-	samples := 0
+	samples, prepSamples := 0, 0
 	pairSamples := map[string]int{}
 	pairsDone, pairsMine := int64(0), int64(0)
 	for _, h := range hs {
@@ -925,23 +1044,43 @@ func TestVerifC09(t *testing.T) {
 				}
 			}
 		}
-		tot.images += h.st.images
-		tot.inflight += h.st.inflight
-		tot.insideWalBatch += h.st.insideWalBatch
-		tot.insideMultiBatch += h.st.insideMultiBatch
-		tot.partialCleanup += h.st.partialCleanup
-		tot.inflightOld += h.st.inflightOld
-		tot.inflightNew += h.st.inflightNew
-		tot.powerLostUnacked += h.st.powerLostUnacked
-		tot.groupedBatches += h.st.groupedBatches
-		tot.parImages += h.st.parImages
-		tot.parPartial += h.st.parPartial
-		tot.reopened += h.st.reopened
-		tot.cleanupAboveLEO += h.st.cleanupAboveLEO
-		tot.points += h.st.points
-		tot.steps += h.st.steps
-		for k, v := range h.st.kindOK {
-			tot.kindOK[k] += v
+		if h.name == "prep" {
+			prepMine++
+			prep.images += h.st.images
+			prep.inflight += h.st.inflight
+			prep.insideMultiBatch += h.st.insideMultiBatch
+			prep.inflightOld += h.st.inflightOld
+			prep.inflightNew += h.st.inflightNew
+			prep.reopened += h.st.reopened
+			prep.further += h.st.further
+			prep.points += h.st.points
+			prep.steps += h.st.steps
+			for k, v := range h.st.kindOK {
+				prep.kindOK[k] += v
+			}
+			for k, v := range h.st.tagInflight {
+				prep.tagInflight[k] += v
+			}
+		} else {
+			tot.images += h.st.images
+			tot.inflight += h.st.inflight
+			tot.insideWalBatch += h.st.insideWalBatch
+			tot.insideMultiBatch += h.st.insideMultiBatch
+			tot.partialCleanup += h.st.partialCleanup
+			tot.inflightOld += h.st.inflightOld
+			tot.inflightNew += h.st.inflightNew
+			tot.powerLostUnacked += h.st.powerLostUnacked
+			tot.groupedBatches += h.st.groupedBatches
+			tot.parImages += h.st.parImages
+			tot.parPartial += h.st.parPartial
+			tot.reopened += h.st.reopened
+			tot.cleanupAboveLEO += h.st.cleanupAboveLEO
+			tot.further += h.st.further
+			tot.points += h.st.points
+			tot.steps += h.st.steps
+			for k, v := range h.st.kindOK {
+				tot.kindOK[k] += v
+			}
 		}
 		for _, e := range h.herrs {
 			r.HarnessError("%s", e)
@@ -953,7 +1092,10 @@ func TestVerifC09(t *testing.T) {
 				r.MarkReplayReproduced()
 			}
 		}
-		if h.sample != nil && h.st.inflight > 0 && (len(h.events) == maxLen || h.name != "seq") && samples < 6 {
+		if h.sample != nil && h.name == "prep" && len(h.st.tagInflight) > 0 && prepSamples < 3 {
+			r.Sample(h.sample)
+			prepSamples++
+		} else if h.sample != nil && h.name != "prep" && h.st.inflight > 0 && (len(h.events) == maxLen || h.name != "seq") && samples < 6 {
 			r.Sample(h.sample)
 			samples++
 		}
@@ -961,7 +1103,7 @@ func TestVerifC09(t *testing.T) {
 	exhaustive := !capped.Load() && int(done.Load()) == len(hs)
 	r.Section(ev.Section{Name: "crash", Kind: "crash", Evaluations: tot.images, Distinct: tot.inflight, Validated: tot.images,
 		Exhaustive: exhaustive, Outcomes: 2, WallS: time.Since(start).Seconds(),
-		Bounds: map[string]any{"alphabet": alphabet, "max_history_length": maxLen, "channels": 2, "histories_total": total, "histories_this_shard": int64(len(hs)) - pairsMine,
+		Bounds: map[string]any{"alphabet": alphabet, "max_history_length": maxLen, "channels": 2, "histories_total": total, "histories_this_shard": int64(len(hs)) - pairsMine - prepMine,
 			"special_histories": "group1, group2, paging (+ paging-then-append in thorough)", "images_per_point": "kill + power-loss"},
 		Note: "every mutating filesystem call made while a history runs is a crash point; both images of every point are evaluated (images with byte-identical disk content are recovered by the real Open once, see counters); " +
 			"evaluations = images reopened, distinct_nontrivial = images captured strictly inside a mutation (acknowledged < started)"})
@@ -972,7 +1114,31 @@ func TestVerifC09(t *testing.T) {
 			"op2_waits_classification_bound": fmt.Sprintf("%v for an op2 that changes nothing, %v for an op2 that needs a commit of its own (classification only, never an oracle)", vc09PairWaitNoop, vc09PairWaitChanging)},
 		Note: "every ordered pair (op1, op2) on one channel: op1 is parked inside the fsync of its commit (crashfs.HoldNextSync), op2 runs to completion or is classified as waiting for op1; " +
 			"everything op2 acknowledged must be present in the power image taken at the instant it returned; evaluations = images reopened, distinct_nontrivial = images taken while op1 was still inside its commit"})
-	r.Count("histories", int64(done.Load())-pairsDone)
+	r.Section(ev.Section{Name: "prepared-states", Kind: "crash", Evaluations: prep.images, Distinct: prep.inflight, Validated: prep.images,
+		Exhaustive: exhaustive, Outcomes: 2, WallS: time.Since(start).Seconds(),
+		Bounds: map[string]any{"prepared_states": vc09Prepared, "events": vc09PreparedEvents, "events_per_history": ev.Pick(r, 1, 2), "histories_total": totalPrep, "histories_this_shard": prepMine,
+			"images_per_point": "kill + power-loss", "required_situations": vc09PreparedTags},
+		Note: "every prepared state x every event: the state is built first (not crash-tested), then the ONE event runs with every mutating filesystem call as a crash point; the prepared states carry the secondary records " +
+			"(retention record with RetainedMaxSeq above a truncation target, epoch history / proposal identities / index rows of a suffix, stale RetainedMaxSeq, boundary above the checkpoint, log end held only by the retention record) " +
+			"that the mutation has to rewrite in the same batch; evaluations = images reopened, distinct_nontrivial = images captured strictly inside a mutation"})
+	r.Count("histories", int64(done.Load())-pairsDone-prepMine)
+	r.Count("prepared_histories", prepMine)
+	r.Count("prepared_steps_executed", prep.steps)
+	r.Count("prepared_crash_points_seen", prep.points)
+	r.Count("prepared_images_reopened", prep.images)
+	r.Count("prepared_images_inside_a_mutation", prep.inflight)
+	r.Count("prepared_images_between_batches_of_a_multi_batch_mutation", prep.insideMultiBatch)
+	r.Count("prepared_inflight_images_recovered_as_absent", prep.inflightOld)
+	r.Count("prepared_inflight_images_recovered_as_present", prep.inflightNew)
+	r.Count("prepared_distinct_disk_contents_recovered_by_the_real_open", prep.reopened)
+	r.Count("prepared_recovered_stores_given_a_further_real_append", prep.further)
+	r.Count("recovered_stores_given_a_further_real_append", tot.further)
+	for _, k := range vc09SortedKeys(prep.kindOK) {
+		r.Count("prepared_accepted_state_changing_"+k, prep.kindOK[k])
+	}
+	for _, k := range vc09SortedKeys(prep.tagInflight) {
+		r.Count("prepared_inflight_images_"+k, prep.tagInflight[k])
+	}
 	r.Count("pairs_executed", pt.pairs)
 	r.Count("pairs_op1_parked_inside_wal_fsync", pt.parked)
 	r.Count("pairs_op1_not_parked", pt.notParked)
@@ -1028,6 +1194,11 @@ func TestVerifC09(t *testing.T) {
 			}
 		}
 		r.Guard("every-mutation-kind-accepted", len(missing) == 0, "kinds never accepted with a state change: %v", missing)
+		// one guard per situation (a guard holds when it holds in one shard)
+		for _, tag := range vc09PreparedTags {
+			r.Guard("prepared:"+tag, prep.tagInflight[tag] >= 1, "%d images captured strictly inside an accepted mutation in this situation (this shard)", prep.tagInflight[tag])
+		}
+		r.Guard("recovered-stores-keep-working", tot.further+prep.further >= 1, "%d recovered stores were given a further real append", tot.further+prep.further)
 		r.Guard("peer-commit-visible-but-not-durable", pt.parkPowerLacksOp1 >= 1 && pt.parkKillHasOp1 >= 1 && pt.notParked == 0,
 			"%d pairs parked op1 inside its WAL fsync (%d not parked): at that instant %d power images lacked op1 and %d kill images contained it", pt.parked, pt.notParked, pt.parkPowerLacksOp1, pt.parkKillHasOp1)
 		r.Guard("op2-acknowledged-while-peer-parked", pt.noopAcksWhileParked >= 1 && pt.noopAcksNontrivial >= 1,
@@ -1053,10 +1224,80 @@ func TestVerifC09(t *testing.T) {
 	}
 	r.Assume("crash model: process kill = every completed write visible; power loss = only synced data (and synced directory entries) survive; torn sectors inside one unsynced write are covered only at these two extremes")
 	r.Assume("the data directory itself is durable before the store first opens in it")
+	r.Assume("truncation targets are never below the committed HW (the store does not touch the checkpoint on truncation; truncating committed data is a caller error outside this property)")
 	r.Assume("reference states are the boundaries of the same execution (raw key/value content) and a hand-written semantic model checked against the live store at every boundary")
 	r.Assume("ack-while-peer-commit-in-fsync: op2 is issued after op1's batch became visible, so a recovered state containing op2 without op1 is not a prefix of the issue order; the acknowledgements of LEOWithError (\"durable log end offset\") and LoadDurableFrontier are treated as durability reports, the plain LoadCheckpoint read (unlocked by design) is not")
 	r.Assume("an image captured between the batches of DiscardForRestore (restore-failure cleanup, before the node is activated) may report committed > LEO for the channel being wiped; required instead: every page batch atomic, LoadDurableFrontier loads consistently or fails closed, and a retried cleanup converges to exactly the completed cleanup")
 	if os.Getenv("VC09_VERBOSE") != "" {
 		t.Logf("histories=%d images=%d inflight=%d wall=%.1fs", done.Load(), tot.images, tot.inflight, time.Since(start).Seconds())
 	}
+}
+
+// ---------------------------------------------------------------- prepared states
+
+// vc09PreparedState is one state built BEFORE capturing starts, in which some mutation's
+// secondary records exist and disagree with that mutation's post-state.
+type vc09PreparedState struct {
+	Events   []string `json:"events"`
+	State    string   `json:"state"`
+	Extra    []string `json:"extra_events,omitempty"` // events with explicit arguments that only make sense here
+	Thorough bool     `json:"thorough_only,omitempty"`
+}
+
+var vc09Prepared = []vc09PreparedState{
+	{Events: []string{"xhw:A", "xhw:A", "xhw:A", "trm:A", "xhw:B"},
+		State: "A: LEO 6, committed HW 4, rows 3..6, retention record 2/2/6 (RetainedMaxSeq ABOVE every truncation target), cursor 2, exact tail proof; B: LEO 2",
+		Extra: []string{"trm:A:4"}},
+	{Events: []string{"xhw:A", "xhw:A", "flo:A", "flo:A", "trm:A"},
+		State: "A: LEO 6, committed HW 2, rows 3..6, retention record 2/2/6, epoch history points at offsets 4 and 5 (above the HW), no tail proof",
+		Extra: []string{"trn:A:4", "trp:A:4", "trn:A:5"}},
+	{Events: []string{"xhw:A", "trm:A"},
+		State: "A: every row trimmed, LEO 2 held only by the retention record 2/2/2"},
+	{Events: []string{"xhw:A", "trm:A", "xhw:A"},
+		State: "A: LEO 4, committed HW 2, rows 3..4, STALE retention record 2/2/2 (RetainedMaxSeq below the log end)"},
+	{Events: []string{"xhw:A", "xhw:A"},
+		State: "A: LEO 4, committed HW 2, no retention record",
+		Extra: []string{"trm:A:3"}},
+	{Events: []string{"xhw:A", "xhw:A", "flo:A", "flo:A", "flo:A", "flo:A", "trm:A", "xhw:B", "trm:B"},
+		State:    "A: LEO 8, committed HW 2, rows 3..8, retention record 2/2/8, epoch history points at offsets 4..7; B: every row trimmed, LEO 2 held by its retention record",
+		Extra:    []string{"trn:A:3", "trn:A:4", "trn:A:5", "trn:A:6", "trn:A:7", "trp:A:3", "trp:A:5", "trp:A:7", "app:B", "xhw:B", "ckp:B", "trm:A:5"}},
+	{Events: []string{"app:A", "app:A", "app:A", "app:A", "app:A", "trm:A:3"},
+		State:    "A: LEO 5, no checkpoint, plain rows 4..5, retention record 3/3/5",
+		Extra:    []string{"trn:A:3", "trn:A:4", "trp:A:3", "trp:A:4"}},
+}
+
+// vc09PreparedEvents run from every prepared state (one event per history).
+var vc09PreparedEvents = []string{"app:A", "xhw:A", "fol:A", "flo:A", "rep:A", "trn:A", "trp:A", "ckp:A", "ckb:A", "trm:A", "trx:A", "dis:A"}
+
+// vc09PreparedTags are the situations (vc09Op.tags) the section must have crash-enumerated.
+var vc09PreparedTags = []string{
+	"trn-lowers-retained-max", "trn-lowers-retained-max-rows-remain", "trn-epoch-history-above-target",
+	"trn-proposal-identities-above-target", "trn-index-rows-above-target",
+	"trp-lowers-retained-max", "trp-lowers-retained-max-rows-remain", "trp-proposal-identities-above-target", "trp-index-rows-above-target",
+	"rep-lowers-retained-max", "rep-replaces-a-stored-suffix",
+	"app-log-end-held-by-retention-record-only",
+	"adopt-rewrites-an-existing-retention-record", "adopt-boundary-above-checkpoint", "adopt-advances-an-existing-cursor",
+	"rep-advances-an-existing-checkpoint", "xhw-advances-an-existing-checkpoint", "xhw-on-a-channel-with-retention-record",
+	"trim-raises-a-stale-retained-max", "trim-deletes-a-row-above-checkpoint", "trim-deletes-a-row-with-proposal-identity",
+}
+
+func vc09PreparedHistories(thorough bool) []*vc09History {
+	var out []*vc09History
+	for _, p := range vc09Prepared {
+		if p.Thorough && !thorough {
+			continue
+		}
+		events := append(append([]string(nil), vc09PreparedEvents...), p.Extra...)
+		for _, e := range events {
+			out = append(out, &vc09History{name: "prep", prefix: p.Events, events: []string{e}})
+			if !thorough {
+				continue
+			}
+			// thorough: every ordered pair of events from the prepared state
+			for _, e2 := range events {
+				out = append(out, &vc09History{name: "prep", prefix: p.Events, events: []string{e, e2}})
+			}
+		}
+	}
+	return out
 }
